@@ -11,6 +11,12 @@ CLAIMED = {
         text="Lean theorems for every natural-number field value, every flag, both targets and every assignment history, stated about definitions regenerated from the AST of laspy.header.GlobalEncoding on each run; the generated functions are validated exhaustively (65,536 x 5 x 2) against the real class, and the property is also run exhaustively on the class itself. A universal bit-level claim over a tiny pure function: proof is the right level and is complete here.",
         note="Trusted: Lean kernel; translator (AST subset; a & ~b emitted as a ^^^ (a &&& b)); CPython int semantics. Header placement of the field at byte 6 is checked by correspondence (header round trips), not proved here (see C07).",
         design="6 (C20)"),
+    "C09": dict(
+        engine="bits",
+        technique="Lean 4 proof: kernel evaluation (decide +kernel) over the complete finite space mask x byte x value of the generated sub-field table, testBit lemmas for sibling isolation, induction for scatter frames and assignment histories; exhaustive correspondence",
+        text="The single-byte claims (read-after-write, isolation, siblings untouched, lsb/mask table sanity) are Lean theorems over the masks regenerated from dims.COMPOSED_FIELDS, covering all 256 prior bytes and every in-range value, i.e. the property's literal quantifier; frame, last-write-wins and the history theorem are proved by induction for all columns, index lists and operation sequences. The model's assignCol is run against SubFieldView.__setitem__ exhaustively at byte level and on seeded histories over all index/value kinds.",
+        note="Trusted: Lean kernel; translator tables; numpy fancy-index resolution (the harness resolves index expressions with numpy before handing positions to the model); numpy casting of the shifted value to u1. Loud failures outside the property (scalar given to a whole-dimension assignment, size-1 sequence to an int index) are skipped and counted.",
+        design="6 (C09)"),
 }
 NOT_YET = "check not built yet in this round (planned per DESIGN.md section 10); not claimed until its theorems build and its check is quiet"
 
